@@ -109,3 +109,81 @@ def network(lanelets=(), signs=(), lights=(), intersections=()):
     for x in intersections:
         net.add_intersection(x)
     return net
+
+
+# ---- goal regions and query states (C08); abstract descriptors as in spec/Goal.tla -------------------------
+def grid_angle(k):
+    """k -> k*pi/12 (the float handed to the library; the same expression for interval ends and query angles)."""
+    import math
+    return k * math.pi / 12
+
+
+def goal_shape(desc, lanelet_ids=None):
+    """Position constraint descriptor (doubled integer coordinates) -> Shape.
+    rect <<X0,Y0,X1,Y1>>, disc centre/rad, poly vertices, group of rects; 'lanelets': the ShapeGroup of the polygons of
+    lanelets looked up in a LaneletNetwork, exactly as the XML reader builds lanelet goal positions."""
+    from commonroad.geometry.shape import Circle, Polygon, Rectangle, ShapeGroup
+    k = desc["k"]
+
+    def _rect(r):
+        x0, y0, x1, y1 = r
+        return Rectangle((x1 - x0) / 2.0, (y1 - y0) / 2.0, np.array([(x0 + x1) / 4.0, (y0 + y1) / 4.0]), 0.0)
+    if k == "rect":
+        return _rect(desc["r"])
+    if k == "disc":
+        return Circle(desc["rad"] / 2.0, np.array([desc["c"][0] / 2.0, desc["c"][1] / 2.0]))
+    if k == "poly":
+        return Polygon(np.array([[x / 2.0, y / 2.0] for x, y in desc["v"]]))
+    if k == "group":
+        return ShapeGroup([_rect(r) for r in desc["rs"]])
+    if k == "lanelets":
+        lls = [lanelet(lid, r[0] / 2.0, r[1] / 2.0, (r[2] - r[0]) / 2.0, (r[3] - r[1]) / 2.0)
+               for lid, r in zip(lanelet_ids, desc["rs"])]
+        net = network(lls)
+        return ShapeGroup([net.find_lanelet_by_id(lid).polygon for lid in lanelet_ids])
+    raise ValueError("unknown position descriptor %r" % (desc,))
+
+
+def goal_region(goal, state_class="ks"):
+    """Sequence of goal-state descriptors [t, pos, ori, vel] -> GoalRegion (public constructors only).
+    state_class: 'ks' -> KSState goal states, 'custom' -> CustomState goal states (what the readers produce)."""
+    from commonroad.common.util import AngleInterval, Interval
+    from commonroad.planning.goal import GoalRegion
+    from commonroad.scenario.state import CustomState, KSState
+    states, lanelets_of = [], {}
+    for i, g in enumerate(goal):
+        kw = {}
+        if g["t"]["k"] != "none":
+            kw["time_step"] = Interval(g["t"]["lo"], g["t"]["hi"])
+        if g["pos"]["k"] != "none":
+            ids = None
+            if g["pos"]["k"] == "lanelets":
+                ids = [100 * (i + 1) + j for j in range(len(g["pos"]["rs"]))]
+                lanelets_of[i] = ids
+            kw["position"] = goal_shape(g["pos"], ids)
+        if g["ori"]["k"] != "none":
+            kw["orientation"] = AngleInterval(grid_angle(g["ori"]["a"]), grid_angle(g["ori"]["b"]))
+        if g["vel"]["k"] != "none":
+            lo, hi = g["vel"]["lo"], g["vel"]["hi"]
+            if g["vel"].get("fl"):
+                lo, hi = float(lo), float(hi)
+            kw["velocity"] = Interval(lo, hi)
+        states.append(CustomState(**kw) if state_class == "custom" else KSState(**kw))
+    return GoalRegion(states, lanelets_of or None)
+
+
+def query_state(s):
+    """Query-state descriptor -> KSState / PMState with exact values."""
+    from commonroad.scenario.state import KSState, PMState
+    pos = np.array([s["p"][0] / 2.0, s["p"][1] / 2.0])
+    if s["kind"] == "pm":
+        conv = int if s.get("vint") else float
+        return PMState(time_step=s["t"], position=pos, velocity=conv(s["vx"]), velocity_y=conv(s["vy"]))
+    th = int(s["th"]) if s["thint"] else grid_angle(s["th"])
+    v = int(s["v"]) if s["vint"] else float(s["v"])
+    return KSState(time_step=s["t"], position=pos, orientation=th, velocity=v, steering_angle=0.0)
+
+
+def planning_problem(region, pid=1):
+    from commonroad.planning.planning_problem import PlanningProblem
+    return PlanningProblem(pid, init_state(), region)
